@@ -69,6 +69,9 @@ func dispatch(what, tier string, seed uint64, replay string) int {
 		return 0
 	}
 	a := buildArtefacts()
+	if what == "bench-world" {
+		return benchWorld(a, seed)
+	}
 	if what == "gen-test" {
 		return genTest(a, 400, seed)
 	}
@@ -82,6 +85,9 @@ func dispatch(what, tier string, seed uint64, replay string) int {
 			return lc.replayCmd(a, replay)
 		}
 		return lc.run(a, tier, seed)
+	}
+	if what == "C07" {
+		return c07Check(a, tier, seed, replay)
 	}
 	die(2, "no check for %q", what)
 	return 2
